@@ -110,6 +110,10 @@ void morph(SrcView const& src_view, DstView const& dst_view, Kernel const& ker_m
     gil_function_requires<ColorSpacesCompatibleConcept<typename color_space_type<SrcView>::type,
                                                        typename color_space_type<DstView>::type>>();
 
+    // nth_channel_view forms a reference to pixel (0,0), which an empty view does not have
+    if (src_view.width() == 0 || src_view.height() == 0)
+        return;
+
     gil::image<typename DstView::value_type> intermediate_img(src_view.dimensions());
 
     for (std::size_t i = 0; i < src_view.num_channels(); i++)
